@@ -41,6 +41,9 @@ fn key_of(short: &str) -> String {
 
 /// library specification, JSON: {short, imports:[short], health, delivery, start, k, fault, renames:bool, cut, variant}
 pub fn lib_source(spec: &Value) -> String {
+    if spec["native"].as_bool().unwrap_or(false) {
+        return String::new();
+    }
     if spec["bare"].as_bool().unwrap_or(false) {
         // a library without any import declaration: its environment is empty but for its own
         // definitions, whatever the importer has
@@ -245,6 +248,23 @@ fn write_lib(prog: &Path, spec: &Value) {
 
 fn register_libs(it: &mut Interpreter<'static, f32>, libs: &[Value]) -> Result<(), String> {
     for spec in libs {
+        if spec["native"].as_bool().unwrap_or(false) {
+            // natively provided: every call of the factory makes a NEW box; one instance per
+            // interpreter means the factory's product is shared by everything that imports it
+            let start = spec["start"].as_i64().unwrap_or(0) as i32;
+            it.register_library_factory(LibraryFactory::Native(
+                library_name_of(&["lib", "nat"]),
+                Box::new(move || {
+                    vec![(
+                        "nat-box".to_string(),
+                        ruschm::values::Value::Vector(ruschm::values::ValueReference::new_mutable(vec![
+                            ruschm::values::Value::Number(ruschm::values::Number::Integer(start)),
+                        ])),
+                    )]
+                }),
+            ));
+            continue;
+        }
         if spec["delivery"].as_str() == Some("registered") {
             let health = spec["health"].as_str().unwrap_or("healthy");
             if health == "missing" {
@@ -279,6 +299,13 @@ fn model_world(libs: &[Value]) -> BTreeMap<String, LibEntry> {
     for spec in libs {
         let s = spec["short"].as_str().unwrap();
         let health = spec["health"].as_str().unwrap_or("healthy");
+        if spec["native"].as_bool().unwrap_or(false) {
+            w.insert(
+                key_of(s),
+                LibEntry::Native(vec![("nat-box".to_string(), NativeVal::IntVector(vec![spec["start"].as_i64().unwrap_or(0)]))]),
+            );
+            continue;
+        }
         match health {
             "healthy" | "faulting-body" => {
                 w.insert(key_of(s), LibEntry::Def(parse_one(&lib_source(spec)).expect("library text parses")));
@@ -431,6 +458,9 @@ struct Visible {
 }
 
 fn external_names(spec: &Value) -> Vec<(String, String)> {
+    if spec["native"].as_bool().unwrap_or(false) {
+        return vec![("nat-box".to_string(), "box".to_string())];
+    }
     if spec["bare"].as_bool().unwrap_or(false) {
         return vec![
             ("bare-secret".to_string(), "peek-secret".to_string()),
@@ -490,10 +520,17 @@ pub fn generate_c13(seed: u64, quick: bool) -> Value {
             "start": rng.range(0, 50),
         }));
     }
+    let with_native = rng.chance(1, 3);
+    if with_native {
+        libs.push(json!({
+            "short": "nat", "native": true, "imports": [], "health": "healthy",
+            "delivery": "registered", "start": rng.range(0, 50),
+        }));
+    }
     let n = libs.len();
     let mut ops: Vec<Value> = vec![];
     let mut visible: BTreeMap<String, Visible> = BTreeMap::new();
-    let with_base = rng.chance(2, 3);
+    let with_base = with_native || rng.chance(2, 3);
     if with_base {
         ops.push(json!({"op": "eval", "k": "import-base", "t": "(import (scheme base))"}));
     }
@@ -536,6 +573,12 @@ pub fn generate_c13(seed: u64, quick: bool) -> Value {
                 )
             }
         };
+        if rng.chance(1, 5) {
+            // a declaration that fails after it has resolved a healthy library: nothing of it
+            // is bound, and the libraries it touched stay the instances they are
+            let other = key_of(libs[rng.upto(n)]["short"].as_str().unwrap());
+            ops.push(json!({"op": "eval", "k": "import-failing", "t": format!("(import {} (lib zz))", other)}));
+        }
         ops.push(json!({"op": "eval", "k": "import", "t": format!("(import {})", set)}));
         for (vis, orig) in bound {
             let kind = names.iter().find(|(n, _)| *n == orig).unwrap().1.clone();
@@ -546,7 +589,9 @@ pub fn generate_c13(seed: u64, quick: bool) -> Value {
         for _ in 0..probes {
             let vis: Vec<(&String, &Visible)> = visible.iter().collect();
             let (name, v) = *rng.pick(&vis);
-            if v.kind == "next" || v.kind == "look" || v.kind.starts_with("via:") {
+            if v.kind == "box" {
+                // not a procedure: nothing to apply at driver level
+            } else if v.kind == "next" || v.kind == "look" || v.kind.starts_with("via:") {
                 ops.push(json!({"op": "driver-call", "k": format!("driver-{}", class_head(&v.kind)), "name": name, "args": []}));
             } else if v.kind == "use-helper" || v.kind == "use-plus" {
                 ops.push(json!({"op": "driver-call", "k": format!("driver-{}", v.kind), "name": name, "args": [rng.range(0, 20)]}));
@@ -564,7 +609,13 @@ pub fn generate_c13(seed: u64, quick: bool) -> Value {
                 let name = rng.pick(&vis_names).clone();
                 let v = &visible[&name];
                 let k = format!("call-{}", class_head(&v.kind));
-                if v.kind == "const" {
+                if v.kind == "box" {
+                    if rng.chance(1, 2) {
+                        ("box-write".to_string(), format!("(vector-set! {} 0 {})", name, rng.range(100, 199)))
+                    } else {
+                        ("box-read".to_string(), format!("(vector-ref {} 0)", name))
+                    }
+                } else if v.kind == "const" {
                     ("read-exported-constant".to_string(), name.clone())
                 } else if v.kind == "use-helper" || v.kind == "use-plus" {
                     (k, format!("({} {})", name, rng.range(0, 20)))
